@@ -355,26 +355,36 @@ def shape_of(v):
 
 
 class Recorder:
-    """wraps persim.gromov_hausdorff.estimate inside the real run: RNG state before the call, arguments, result"""
+    """wraps persim.gromov_hausdorff.estimate (and make_distance_matrix…) inside the real run: RNG state before the
+    call, arguments, result, and WHICH two input objects the distance matrices were just made from"""
 
     def __init__(self):
         self.m = gh()
         self.calls = []
+        self.made = []
 
     def __enter__(self):
         self.orig = self.m.estimate
+        self.orig_mk = self.m.make_distance_matrix_from_adjacency_matrix
+
+        def mk(AG, *a, **k):
+            self.made.append(AG)
+            return self.orig_mk(AG, *a, **k)
 
         def wrapped(DX, DY, *a, **k):
             st = np.random.get_state()
             res = self.orig(DX, DY, *a, **k)
             self.calls.append({"DX": np.asarray(DX).tolist(), "DY": np.asarray(DY).tolist(),
-                               "lb": float(res[0]), "ub": float(res[1]), "state": st})
+                               "lb": float(res[0]), "ub": float(res[1]), "state": st,
+                               "from": tuple(self.made[-2:])})
             return res
         self.m.estimate = wrapped
+        self.m.make_distance_matrix_from_adjacency_matrix = mk
         return self
 
     def __exit__(self, *a):
         self.m.estimate = self.orig
+        self.m.make_distance_matrix_from_adjacency_matrix = self.orig_mk
 
 
 def run_gh(objs, pair, seed=None, state=None):
@@ -439,6 +449,28 @@ def canon_model(ans):
     return [[[int(x) for x in row] for row in ans[0]], ans[1], int(ans[2])]
 
 
+# ----------------------------------------------------------------------------- reporting
+
+def stop(ctx):
+    """enough failing inputs of the statement found; correspondence-only breaks do not end the search"""
+    return sum(1 for _, found in ctx.violations if found) > 4
+
+
+def report(ctx, what, case, found_input=True, **more):
+    """VIOLATION with a failing input always; a disagreement with the model for which NO failing input of the
+    statement was found is printed once per correspondence operation (and counted every time), so that the
+    later streams still get their chance to find a failing input"""
+    if found_input:
+        return ctx.violation(what, case, found_input=True, **more)
+    key = more.get("correspondence", "model")
+    ctx.count("correspondence_break:" + key)
+    seen = ctx.__dict__.setdefault("_corr_seen", set())
+    if key in seen:
+        return None
+    seen.add(key)
+    return ctx.violation(what, case, found_input=False, **more)
+
+
 # ----------------------------------------------------------------------------- streams
 
 def stream_dist(ctx):
@@ -454,7 +486,7 @@ def stream_dist(ctx):
         ("docs-K4", [[0, 1, 1, 1], [0, 0, 1, 1], [0, 0, 0, 1], [0, 0, 0, 0]]),
     ]
     graphs = [(k, U) for k, U in corpus]
-    for _ in range(ctx.n(170, 2500)):
+    for _ in range(ctx.n(450, 5000)):
         graphs.append(gen_graph(ctx, nmax))
     # int8/int16 boundary: diameters 126..129
     for n in ([128, 129] if not ctx.thorough else [127, 128, 129, 130]):
@@ -506,7 +538,7 @@ def stream_dist(ctx):
             ctx.count("malformed")
             okm = code[0] == "err" and ans == "err:" + code[1]
             if not okm:
-                ctx.violation("malformed adjacency %r: code %r, model %r" % (E, canon_dist(code), ans), case,
+                report(ctx, "malformed adjacency %r: code %r, model %r" % (E, canon_dist(code), ans), case,
                               found_input=False, correspondence="gr.dist")
             continue
         if ans == "bad-op":
@@ -517,10 +549,10 @@ def stream_dist(ctx):
             ctx.count("bits:%d" % code[2])
         if cm != mm:
             why = dist_property(E, code)
-            ctx.violation("make_distance_matrix_from_adjacency_matrix(%s %dx%d): %s; code=%s model=%s"
+            report(ctx, "make_distance_matrix_from_adjacency_matrix(%s %dx%d): %s; code=%s model=%s"
                           % (meta["container"], len(E), len(E), why or "code satisfies the statement but differs from the model",
                              short(cm), short(mm)), case, found_input=why is not None, correspondence="gr.dist")
-            if len(ctx.violations) > 4:
+            if stop(ctx):
                 return
             continue
         # [T] laws on the real code: every representation of the same labelled graph gives the same answer,
@@ -566,10 +598,10 @@ def stream_dist(ctx):
         if sorted(counts.tolist())[-2:] == [counts.max()] * 2 and ncomp > 1:
             ctx.count("tie_in_largest_size")
         if code != model:
-            ctx.violation("scipy connected_components / np.unique / np.argmax differ from the model's labelling: scipy=%s model=%s"
-                          % (short(code), short(model)), {"correspondence": "gr.components", "entries": U, "code": code,
-                                                          "model": model}, found_input=False)
-            if len(ctx.violations) > 4:
+            report(ctx, "scipy connected_components / np.unique / np.argmax differ from the model's labelling: scipy=%s model=%s"
+                          % (short(code), short(model)), {"op": "components", "entries": U, "code": code, "model": model},
+                   found_input=False, correspondence="gr.components")
+            if stop(ctx):
                 return
 
 
@@ -587,10 +619,10 @@ def stream_inttype(ctx):
         if code != model:
             suff = isinstance(code, int) and v <= 2 ** (code - 1) - 1
             bad = (isinstance(code, str) and v <= 2 ** 63 - 1) or (isinstance(code, int) and not suff)
-            ctx.violation("determine_optimal_int_type(%d): code=%s model=%s%s" % (v, code, model,
+            report(ctx, "determine_optimal_int_type(%d): code=%s model=%s%s" % (v, code, model,
                           " (the chosen type cannot hold the value)" if bad else ""),
                           {"op": "inttype", "value": v}, found_input=bad, correspondence="gr.inttype")
-            if len(ctx.violations) > 4:
+            if stop(ctx):
                 return
 
 
@@ -623,7 +655,7 @@ def stream_pairs(ctx):
     todo = []
     fixed = [(g_complete(4), _empty(1)), (g_path(2), g_cycle(5)), (g_union(r, [g_star(3), g_path(2)], False), g_path(3)),
              (g_union(r, [g_path(2), g_path(2)], False), _empty(2))]
-    for i in range(ctx.n(110, 1500)):
+    for i in range(ctx.n(260, 3000)):
         if i < len(fixed):
             U1, U2 = fixed[i]
         else:
@@ -659,7 +691,7 @@ def stream_pairs(ctx):
             if not okr:
                 ctx.violation("gromov_hausdorff(AG, AH) on well-formed graphs: %s, warnings %s, disconnected=%s"
                               % ("raised " + str(val) if st == "err" else "returned", w, disc), case, law="graceful")
-                if len(ctx.violations) > 4:
+                if stop(ctx):
                     return
                 continue
             lb, ub = float(val[0]), float(val[1])
@@ -667,9 +699,9 @@ def stream_pairs(ctx):
             model = ans if isinstance(ans, str) else [float(ans[0]), float(ans[1]), int(ans[2])]
             if code != model:
                 good = check_brackets(ctx, m1["entries"], m2["entries"], lb, ub, case, 6)
-                ctx.violation("pair dispatch differs from the model: code=%s model=%s" % (code, model), case,
+                report(ctx, "pair dispatch differs from the model: code=%s model=%s" % (code, model), case,
                               found_input=not good, correspondence="gr.gh pair")
-                if len(ctx.violations) > 4:
+                if stop(ctx):
                     return
                 continue
             okb = lb <= ub
@@ -686,7 +718,7 @@ def stream_pairs(ctx):
                                   % ((lb0, ub0), (lb, ub)), dict(case, other_entries=[U1, U2]), law="formats")
             if not okb:
                 ctx.violation("lower bound above upper bound", case, law="lb_le_ub")
-            if len(ctx.violations) > 4:
+            if stop(ctx):
                 return
 
 
@@ -695,9 +727,13 @@ def stream_collections(ctx):
     r = ctx.rng
     nmax = ctx.n(7, 12)
     lines, recs = [], []
-    for i in range(ctx.n(45, 500)):
+    for i in range(ctx.n(110, 1000)):
         N = r.choice([2, 3, 3, 4, 4, 5, 6])
         Us = [gen_graph(ctx, nmax)[1] for _ in range(N)]
+        if i % 5 == 1:                       # larger, asymmetric graphs (the heuristic upper bound is not tight there)
+            N = r.choice([2, 3])
+            Us = [g_connected(r, r.randint(8, ctx.n(14, 20)))[1] for _ in range(N)]
+            ctx.count("collection:large_graphs")
         if i == 0:
             Us = [g_complete(4), _empty(1), g_path(2), g_cycle(5)]
         if r.random() < 0.3:
@@ -729,7 +765,7 @@ def stream_collections(ctx):
         if not okr:
             ctx.violation("gromov_hausdorff(As): %s, warnings %s, disconnected=%s"
                           % ("raised " + str(val) if st == "err" else "returned", sorted(set(w)), disc), case, law="graceful")
-            if len(ctx.violations) > 4:
+            if stop(ctx):
                 return
             continue
         lbs, ubs = np.asarray(val[0]), np.asarray(val[1])
@@ -741,18 +777,19 @@ def stream_collections(ctx):
         if why is not None:
             ctx.violation("gromov_hausdorff(As), N=%d: %s" % (N, why), case, law="collection")
         elif code != model or symm != code[0]:
-            ctx.violation("collection dispatch differs from the model although the statement's laws hold on the code: "
+            report(ctx, "collection dispatch differs from the model although the statement's laws hold on the code: "
                           "code=%s model=%s" % (short(code), short(model)), case, found_input=False,
                           correspondence="gr.gh coll")
-        if len(ctx.violations) > 4:
+        if stop(ctx):
             return
     for As, ans in zip(few, answers[2 * len(recs):]):
         st, val, w, calls = run_gh(As, False, seed=1)
         code = "err:" + val if st == "err" else "ok"
         ctx.case({"op": "coll", "entries": As, "seed": 1, "containers": ["list"] * len(As)}, nontrivial=False)
         if code != ans:
-            ctx.violation("collection of %d graphs: code=%s model=%s" % (len(As), code, ans),
-                          {"correspondence": "gr.gh coll", "entries": As, "code": code, "model": ans}, found_input=False)
+            report(ctx, "collection of %d graphs: code=%s model=%s" % (len(As), code, ans),
+                   {"op": "few", "entries": As, "code": code, "model": ans}, found_input=False,
+                   correspondence="gr.gh coll (fewer than two graphs)")
 
 
 def coll_property(ctx, metas, objs, lbs, ubs, calls, case):
@@ -771,17 +808,25 @@ def coll_property(ctx, metas, objs, lbs, ubs, calls, case):
     ctx.test("collection_zero_diagonal", ok)
     if not ok:
         why = why or "diagonal is not zero"
-    # each entry equals the pair call started from the RNG state the collection call had at that point
+    # each entry equals the pair call started from the RNG state the collection call had at that point; a recorded
+    # estimate call belongs to the pair (i, j) of the two input objects its distance matrices were made from
     states = {}
     pairs = [(i, j) for i in range(N) for j in range(i + 1, N)]
-    okc = len(calls) == len(pairs)
-    ctx.test("collection_one_estimate_per_pair", okc)
-    if not okc:
-        why = why or "%d estimate calls for %d pairs" % (len(calls), len(pairs))
-    for (i, j), c in zip(pairs, calls):
-        states[(i, j)] = c["state"]
+
+    def index_of(o):
+        hits = [k for k, x in enumerate(objs) if x is o]
+        return hits[0] if len(hits) == 1 else None
+    for c in calls:
+        if len(c["from"]) == 2:
+            key = (index_of(c["from"][0]), index_of(c["from"][1]))
+            if key in pairs and key not in states:
+                states[key] = c["state"]
+    ctx.count("collection_calls_%s" % ("as_modelled" if len(calls) == len(pairs) else "differ"))
     for (i, j) in pairs:
         if (i, j) not in states:
+            ok = lbs[i, j] == 0 and ubs[i, j] == 0 and False
+            ctx.test("collection_entry_is_pair_result", ok)
+            why = why or "no estimate call was made for the pair (%d,%d); entry is (%s,%s)" % (i, j, lbs[i, j], ubs[i, j])
             continue
         st, val, w, pc = run_gh([objs[i], objs[j]], True, state=states[(i, j)])
         ok = st == "ok" and float(val[0]) == lbs[i, j] and float(val[1]) == ubs[i, j]
@@ -815,10 +860,13 @@ def run(ctx):
                                        "cast_distance_matrix_to_optimal_int_type", "determine_optimal_int_type"])
     with common.LineCov(["persim/gromov_hausdorff.py"]) as cov:
         cov_probe()
-    ctx.extra["line_coverage_probe"] = cov.summary()
+    summ = cov.summary()
+    for v in summ.values():      # the anchored functions are lines 116-265 (dispatch, make_distance_matrix, int type)
+        v["missed_lines_in_anchored_range_116_265"] = [x for x in v.pop("missed_lines") if 116 <= x <= 265]
+    ctx.extra["line_coverage_probe"] = summ
     for stream in (stream_dist, stream_inttype, stream_pairs, stream_collections):
         stream(ctx)
-        if len(ctx.violations) > 4:
+        if stop(ctx):
             return
 
 
